@@ -893,6 +893,47 @@ theorem F03_counterexample :
       = (Ty.lslice (.ptr (.ptr (.str false)))).app (.slice [.ptr none]) [] := by
   decide +kernel
 
+/-! ### totality: any byte string, never a panic, never a hang -/
+
+/-- for every codec tree (no hypothesis at all) and EVERY byte string, walking
+with the type's descriptor ends with calls or an error. -/
+theorem descRead_total (t : Ty) (data : Bytes) : (descRead (descriptor t) data).fine :=
+  descRead_fine (descriptor t) (descriptor_ok t) data
+
+theorem descCalls_total (t : Ty) (data : Bytes) : (descCalls t data).fine := by
+  unfold descCalls
+  rcases Total.fine_cases (descRead_total t data) with ⟨⟨cs, n⟩, e⟩ | e <;> simp [e, Res.fine]
+
+/-- the same for an arbitrary descriptor (e.g. one restored from its plenc or
+JSON serialisation, including the JSON object / array field types) whose slice
+nodes have an element descriptor… -/
+theorem descRead_total_desc (d : Desc) (hd : d.ok) (data : Bytes) : (descRead d data).fine :=
+  descRead_fine d hd data
+
+/-- …and that hypothesis is needed: `Descriptor{Type: FieldTypeSlice}.Read` indexes
+`d.Elements[0]` without a length check. -/
+theorem slice_without_element_panics (data : Bytes) :
+    descRead { type := .slice } data = .panic := by
+  rw [descRead.eq_def]
+
+/-- the packed loop of `readAsSlice` as it was before the `n <= 0` check. -/
+def packedLoopOld (rd : Bytes → Res (List OCall × Nat)) :
+    (fuel : Nat) → Bytes → Nat → List OCall → Res (List OCall × Nat)
+  | 0, _, _, _ => .hang
+  | fuel+1, data, off, acc =>
+    if data.isEmpty then .ok (acc, off) else
+    match rd data with
+    | .ok (cs, n) => packedLoopOld rd fuel (data.drop n) (off + n) (acc ++ cs)
+    | .err => .err | .panic => .panic | .hang => .hang
+
+/-- finding (repaired): a packed varint slice ending in a truncated varint made
+the old loop spin — `IntCodec.Read` returns `n = 0, err = nil` for it — while the
+outputter buffer grew without bound. With the check it is an error. -/
+theorem old_packed_loop_hangs :
+    packedLoopOld (descRead (descriptor (.int 64))) ([0x80].length + 1) [0x80] 0 [] = .hang ∧
+    descCalls (.vslice (.int 64)) [0x80] = .err := by
+  refine ⟨by decide +kernel, by decide +kernel⟩
+
 /-! ### non-vacuity -/
 
 def exTy : Ty :=
